@@ -8,7 +8,7 @@ from symx import terms as T
 from symx.engine import rat
 from .common import *
 from .jac import gmul
-from .optcommon import RecSolver, make_model, oracle_residual_jacobian
+from .optcommon import RecSolver, make_model, oracle_residual_jacobian, concrete_instance, fd_residual_jacobian
 
 EXPLAIN = ("GaussNewton.step and LevenbergMarquardt.step run under symx on bounded model programs (SO3 Act; SE3 + Euclidean + frozen "
            "parameter; so3 algebra parameter with two residual outputs) with symbolic parameters, inputs, targets and weights. The property's own "
@@ -202,17 +202,55 @@ def case_gn(H, kind, weighted, vectorize):
             H.reach('%s/path%d/reach' % (name, pn), hyp)
 
 
-def case_lm(H, kind, damping, clamp):
+def case_lm(H, kind, damping, clamp, strategy='Constant'):
     """LM trials: A_0 = clamp-diag(J^T J), A_k = A_{k-1} + lambda diag(A_{k-1}); b = -J^T R"""
-    name = 'C07/LM/%s/damping=%s/clamp=%s' % (kind, damping, clamp)
+    name = 'C07/LM/%s/damping=%s/clamp=%s%s' % (kind, damping, clamp, '' if strategy == 'Constant' else '/strategy=' + strategy)
     mn, mx = clamp
+    mk_strategy = lambda: getattr(pp.optim.strategy, strategy)(damping=damping)
+
+    def replay_trial0(model):
+        """real LM.step at the solver's values with a recording solver: a trial must be made (unless J^T R = 0) and its matrix must be
+        clamp-diag(J^T J) + lambda diag(.), its right-hand side -J^T R, with J by central differences in tangent coordinates"""
+        mod, params, p, y = concrete_instance(kind, model)
+        R0, Jfd = fd_residual_jacobian(mod, params, p, y)
+
+        class Rec(nn.Module):
+            def __init__(s):
+                super().__init__()
+                s.calls = []
+
+            def forward(s, A, b):
+                s.calls.append((A.clone(), b.clone()))
+                return torch.linalg.pinv(A) @ b
+        rec = Rec()
+        opt = pp.optim.LM(mod, solver=rec, strategy=mk_strategy(), reject=1, min=mn, max=mx)
+        try:
+            opt.step(p, y)
+        except Exception as e:
+            return True, 'LM.step raised %s: %s' % (type(e).__name__, str(e)[:100])
+        bref = -(Jfd.mT @ R0)
+        if not rec.calls:
+            return bref.abs().max().item() > 0, 'LM.step made no trial (solver never called) although J^T R is non-zero: |J^T R| = %.3g' % bref.norm().item()
+        A0 = Jfd.mT @ Jfd
+        dg = A0.diagonal().clamp(mn, mx)
+        A0 = A0 - torch.diag(A0.diagonal()) + torch.diag(dg)
+        A0 = A0 + damping * torch.diag(A0.diagonal())
+        A, b = rec.calls[0]
+        e = max(((A - A0).abs().max() / (1 + A0.abs().max())).item(), ((b.view(-1) - bref).abs().max() / (1 + bref.abs().max())).item())
+        return e > 1e-5, 'first LM trial: A_0, b differ from clamp-diag(J^T J)(1 + lambda on the diagonal), -J^T R by %.3g (relative; J by central differences)' % e
 
     def prog(m):
         mod, params, p, y, ps, ys, info = make_model(kind, m)
         R, Rflat, J = oracle_residual_jacobian(m.ctx, m, mod, params, p, y)
-        sol = RecSolver(m, rot_slices=info['rot_slices'])
-        opt = pp.optim.LM(mod, solver=sol, strategy=pp.optim.strategy.Constant(damping=damping), reject=1, min=mn, max=mx)
-        opt.step(p, y)
+        # strategies other than Constant: only the first trial is examined (the recording solver ends the call there; how a strategy
+        # moves the damping between trials is C08's subject)
+        sol = RecSolver(m, rot_slices=info['rot_slices'], raise_at=(None if strategy == 'Constant' else 0))
+        opt = pp.optim.LM(mod, solver=sol, strategy=mk_strategy(), reject=1, min=mn, max=mx)
+        try:
+            opt.step(p, y)
+        except RuntimeError as e:
+            if 'injected fault' not in str(e):
+                raise
         return sol.calls, Rflat, J, params
 
     def replay_lm(model):
@@ -247,6 +285,10 @@ def case_lm(H, kind, damping, clamp):
         JtR = [z3.Sum([J[r][i] * Rflat[r] for r in range(nr)]) for i in range(nc)]
         lam = rat(damping)
         prev = None
+        # every call makes at least one trial (a model with a visibly non-zero gradient is preferred as witness)
+        g2 = z3.Sum([x_ * x_ for x_ in JtR])
+        H.prove('%s/path%d/a-trial-is-made' % (name, pn), hyp, z3.BoolVal(len(calls) >= 1), key='C07/LM/trial-made', replay=replay_trial0,
+                neg_margin=[g2 > z3.RealVal('1/' + '1' + '0' * 24), g2 > 0])
         for k, (A, b, Ashape, bshape) in enumerate(calls):
             if Ashape != (nc, nc):
                 H.prove('%s/path%d/trial%d/shape' % (name, pn, k), [], z3.BoolVal(False), key='C07/LM/assembly')
@@ -264,11 +306,12 @@ def case_lm(H, kind, damping, clamp):
                     if k == 0:
                         d_ = A[i * nc + j] - want[i][j]
                         H.prove('%s/path%d/trial%d/A[%d,%d]' % (name, pn, k, i, j), hyp, A[i * nc + j] == want[i][j], key='C07/LM/assembly', timeout=(10 if i == j else 20),
-                                neg_margin=z3.Or(d_ > z3.RealVal('1/1000'), d_ < -z3.RealVal('1/1000')))
+                                neg_margin=z3.Or(d_ > z3.RealVal('1/1000'), d_ < -z3.RealVal('1/1000')), replay=replay_trial0)
                     else:
                         H.prove('%s/path%d/trial%d/A_k==A_(k-1)+lambda.diag[%d,%d]' % (name, pn, k, i, j), hyp, A[i * nc + j] == want[i][j],
                                 key='C07/LM/damping-recursion', timeout=20, replay=replay_lm)
-                H.prove('%s/path%d/trial%d/b[%d]' % (name, pn, k, i), hyp, b[i] == -JtR[i], key='C07/LM/assembly', timeout=20)
+                H.prove('%s/path%d/trial%d/b[%d]' % (name, pn, k, i), hyp, b[i] == -JtR[i], key='C07/LM/assembly', timeout=20,
+                        replay=(replay_trial0 if k == 0 else None))
             prev = A
         if pn % 2 == 0:
             H.reach('%s/path%d/reach' % (name, pn), hyp)
@@ -278,7 +321,7 @@ def run(H):
     H.assumptions += ['exact real arithmetic', 'valid group parameters', 'steps returned by the (arbitrary) solver keep the retraction on its closed-form branch '
                       '(|rotation part of D| > 1e-3); tiny steps are C01/C05', 'default solvers meet their contract: C10']
     H.bounds += ['model programs: SO3 Act (2 points), SE3 + Euclidean + frozen parameter (1 point; frozen parameter registered last and first), so3 algebra parameter with two residual outputs',
-                 'weights: one SPD 3x3 block shared by all items (GN)', 'LM: Constant strategy, damping in {1e-6, 0.5}, clamps active and inactive, reject=1',
+                 'weights: one SPD 3x3 block shared by all items (GN)', 'LM: Constant strategy, damping in {1e-6, 0.5}, and Adaptive strategy (damping 0.25), clamps active and inactive, reject=1',
                  'the sparse backend (bae) is not installed: sparse=True is outside']
     only = getattr(H, 'only', None)
     jobs = []
@@ -289,6 +332,7 @@ def run(H):
     jobs.append(lambda: case_gn(H, 'SO3-act', False, False))
     jobs.append(lambda: case_lm(H, 'SO3-act', 0.5, (1e-6, 1e32)))
     jobs.append(lambda: case_lm(H, 'SO3-act', 1e-6, (0.5, 2.0)))
+    jobs.append(lambda: case_lm(H, 'SO3-act', 0.25, (0.5, 2.0), strategy='Adaptive'))
     if not H.quick:
         jobs.append(lambda: case_gn(H, 'SE3+euclid+frozen', True, False))
         jobs.append(lambda: case_lm(H, 'SE3+euclid+frozen', 0.5, (1e-6, 1e32)))
